@@ -35,7 +35,7 @@ def run(ck):
         types = [rng.choice(profiles)] if fitter == "single" else [rng.choice(profiles) for _ in range(rng.randint(1, 3))]
         cases.append({"fitter": fitter, "types": types, "sky": ["none", "flat", "tilted-plane"][i % 3], "suffix": rng.choice(["", "", "_a", "_1"]),
                       "N": rng.choice([5, 6, 7, 8, 9]), "renderer": rng.choice(["pixel", "pixel", "fourier", "hybrid"]),
-                      "zero_flux": rng.random() < 0.4, "g": rng.choice([0.25, -1.5, 3.0]), "e": rng.choice([0.5, 2.0, 0.125]), "seed": rng.randint(0, 10**6)})
+                      "zero_flux": rng.random() < 0.4, "g": [0.25, -1.5, 3.0, 0.0, 64.0][(i + i // 3) % 5], "e": [0.5, 2.0, 0.125, 1.0][(i // 3) % 4], "seed": rng.randint(0, 10**6)})
     ck.log("implementation: %d fitters (x2: with / without sky)" % len(cases))
     import concurrent.futures as cf
     nsh = min(6, vlib.NCPU)
@@ -69,6 +69,16 @@ def run(ck):
             tol = Fraction(2, 10**6) * Fraction(scale).limit_denominator(10**6)
             goals.append("Goal Rabs (%s (Xof %d %d) (Yof %d %d) %d %d%s - %s) <= %s. Proof. unfold %s, Xof, Yof, grid_X, grid_Y. interval. Qed."
                          % (fn, rr, cc, rr, cc, N, N, args, q(dh), q(tol), fn))
+        # search oracle (property text): the sky prior is Normal(g, e) for the level and Normal(0, e/10) for both slopes
+        if c["sky"] != "none":
+            hyo = {(h[0][: len(h[0]) - len(sky_sfx)] if sky_sfx else h[0]): h for h in r["hyper"]}
+            wanth = {"sky_back": (c["g"], c["e"]), "sky_x_sl": (0.0, c["e"] / 10), "sky_y_sl": (0.0, c["e"] / 10)}
+            for nm in want_sites:
+                if nm in hyo:
+                    lo_, sc_ = float.fromhex(hyo[nm][1]), float.fromhex(hyo[nm][2])
+                    if abs(lo_ - wanth[nm][0]) > 1e-6 * (1 + abs(wanth[nm][0])) or abs(sc_ - wanth[nm][1]) > 1e-6 * (1 + abs(wanth[nm][1])):
+                        oracle_bad.append((c, {"oracle": ["sky prior of %s is Normal(%r, %r) but the constructor arguments (sky_guess=%r, sky_guess_err=%r) call for Normal(%r, %r)"
+                                                          % (nm, lo_, sc_, c["g"], c["e"], wanth[nm][0], wanth[nm][1])]}))
         if c["sky"] == "tilted-plane":
             for (rr, cc, sh) in r["standalone"]:
                 goals.append("Goal Rabs (sky_standalone (Xof %d %d) (Yof %d %d) %d %d%s - %s) <= %s. Proof. unfold sky_standalone, Xof, Yof, grid_X, grid_Y. interval. Qed."
@@ -108,6 +118,8 @@ def run(ck):
     ck.extra["interval_goals"] = len(goals)
     ck.oblige("correspondence:model(with sky)-model(without)==generated sky formula; standalone; hyper-parameters (interval)", "correspondence", ok, detail)
     ck.oblige("correspondence:sky site names and reparam entries", "correspondence", not site_bad, json.dumps(site_bad[0][1:]) if site_bad else "")
+    ck.oblige("oracle:sky added = closed form (none / constant / plane about N/2), independent of PSF and sources, prior hyper-parameters = constructor arguments", "correspondence",
+              not oracle_bad, json.dumps(oracle_bad[0][1]["oracle"][:2]) if oracle_bad else "")
     ck.samples += [{"case": c, "sky_values": {k: float.fromhex(v) for k, v in r["sky_values"].items()}} for c, r in list(zip(cases, res))[:4]]
     ck.trusted += ["Coq 8.16.1 kernel; Interval tactic (primitive float axioms); Reals axioms",
                    "translator units Sky, Grid, BuildModel (fail-closed pattern extraction of sample(), update_prior, meshgrid, build_model statements)",
